@@ -423,6 +423,16 @@ func (w *World) checkHeld(step int) {
 	if len(w.held) > 1 {
 		w.r.Probe("held_signatures_rechecked")
 	}
+	for _, e := range w.schs {
+		if e.reported || bytes.Equal(e.sig, e.snap) {
+			continue
+		}
+		e.reported = true
+		w.r.Violate("C14", "returned-signature-changed-later", "SchnorrSign", step, "the Schnorr signature returned for key=%d msg=%x was %x when it was returned and reads %x at step %d: the bytes handed to the caller are still being written by the library", e.key, e.msg, e.snap, e.sig, step)
+	}
+	if len(w.schs) > 1 {
+		w.r.Probe("held_schnorr_signatures_rechecked")
+	}
 }
 
 // parseSig parses Sign output with the model's parsers and cross-checks the
@@ -1006,7 +1016,7 @@ func (w *World) runSchnorr(step, key int, msg []byte, cfg kernel.DevCfg, useNil 
 	} else if !lok {
 		w.r.Violate("C14", "lib-verify-rejects", "SchnorrVerify", step, "%s: the library rejects the signer's own signature", desc)
 	}
-	w.schs = append(w.schs, &schEvent{key: key, aux: aux, msg: msg, sig: sig})
+	w.schs = append(w.schs, &schEvent{key: key, aux: aux, msg: msg, sig: sig, snap: append([]byte(nil), sig...)})
 }
 
 // ---------------------------------------------------------------- sampler (C09)
